@@ -156,6 +156,8 @@ def gen_dsm(tier, seed):
         ops.append({"kind": "bal"})
         ops.append({"kind": "bal", "perturb": [r.choice(["stock", "inflow", "outflow"]), r.randrange(10 ** 6),
                                                fnum(r.choice([Fraction(5, 4), Fraction(1, 200), Fraction(7, 10 ** 5)]))]})
+        # the same balance at the scale of kilograms: a deviation of 50 is far beyond the documented threshold
+        ops.append({"kind": "bal", "big": 2 ** 24, "perturb": [r.choice(["stock", "inflow", "outflow"]), r.randrange(10 ** 6), r.choice(["50", "-500", "5"])]})
         specs.append({"id": cid, "items": items, "extra": extra,
                       "lt": {"cls": cls, "prms": prms, "inflow_at": inflow_at, "n_pts": n_pts}, "ops": ops})
         stats["cases"] += 1
